@@ -260,8 +260,9 @@ pub fn shrink_candidates(scenario: &Value) -> Vec<Value> {
             push(s);
         }
     }
-    // drop single edges
-    for st in 0..sc.graph.n {
+    // drop single edges (on small graphs only: a candidate is a copy of the whole scenario)
+    let small = sc.graph.n <= 200;
+    for st in 0..if small { sc.graph.n } else { 0 } {
         for a in 0..sc.graph.edges[st].len() {
             let mut s = sc.clone();
             s.graph.edges[st].remove(a);
@@ -276,7 +277,7 @@ pub fn shrink_candidates(scenario: &Value) -> Vec<Value> {
             push(s);
         }
     }
-    for st in 0..sc.graph.n {
+    for st in 0..if small { sc.graph.n } else { 0 } {
         if !sc.graph.boundary[st] {
             let mut s = sc.clone();
             s.graph.boundary[st] = true;
